@@ -301,3 +301,86 @@ def finalize(case):
 def strip_struct(case):
     c = {k: v for k, v in case.items() if not k.endswith("_struct")}
     return c
+
+
+def _third_versions(case):
+    out = {}
+    for p in case["graph"]["packages"]:
+        out.setdefault(p["name"], []).append(vstr(p))
+    return out
+
+
+def _crits(store):
+    return BUILTINS + list(store["criteria"])
+
+
+def boost_grants(rng, case):
+    """plant wildcard-audit / trusted entries with publisher records whose dates sit
+    on, just inside and just outside the window boundaries"""
+    store = case["store_struct"]
+    notes = Notes()
+    notes.n = 1000
+    crits = _crits(store)
+    for name, vs in _third_versions(case).items():
+        if rng.random() < 0.35:
+            continue
+        pubs = store["lock"]["publisher"].setdefault(name, [])
+        have = {p["version"] for p in pubs}
+        for v in vs + rng.sample(VERSIONS, 1):
+            if "@" in v or v in have:
+                continue
+            uid = rng.randint(1, 3)
+            pubs.append({"version": v, "when": rng.choice(DATES[1:6]), "user-id": uid,
+                         "user-login": f"user{uid}", "user-name": f"User {uid}"})
+            have.add(v)
+        if not pubs:
+            del store["lock"]["publisher"][name]
+            continue
+        target = rng.choice(pubs)
+        di = DATES.index(target["when"])
+        for _ in range(rng.choice([1, 1, 2])):
+            # window relative to the publication day: ends on it, starts on it, one step off...
+            s = DATES[max(0, di - rng.choice([0, 0, 1, 2]))]
+            e = DATES[min(7, di + rng.choice([0, 0, 1, 1, 2]))]
+            if rng.random() < 0.15:
+                s, e = DATES[min(7, di + 1)], DATES[min(7, di + 2)]
+            uid = target["user-id"] if rng.random() < 0.75 else rng.randint(1, 3)
+            ent = {"user-id": uid, "start": s, "end": e, "criteria": crit_list(rng, crits), "notes": notes()}
+            where = rng.random()
+            if where < 0.5:
+                store["wildcard_audits"].setdefault(name, []).append(ent)
+            elif where < 0.75:
+                store["trusted"].setdefault(name, []).append(ent)
+            elif store["lock"]["audits"]:
+                peer = rng.choice(sorted(store["lock"]["audits"]))
+                store["lock"]["audits"][peer].setdefault("wildcard_audits", {}).setdefault(name, []).append(ent)
+            else:
+                store["wildcard_audits"].setdefault(name, []).append(ent)
+    # a wildcard audit for another crate by the same user must give nothing
+    return case
+
+
+def boost_exemptions(rng, case):
+    store = case["store_struct"]
+    notes = Notes()
+    notes.n = 2000
+    crits = _crits(store)
+    for name, vs in _third_versions(case).items():
+        r = rng.random()
+        if r < 0.25:
+            continue
+        ex = store["exemptions"].setdefault(name, [])
+        v = rng.choice(vs)
+        if r < 0.6:
+            ex.append({"version": v, "criteria": crit_list(rng, crits), "suggest": True, "notes": notes()})
+        else:
+            mid = rng.choice(VERSIONS)
+            ex.append({"version": mid, "criteria": crit_list(rng, crits), "suggest": rng.random() > 0.2, "notes": notes()})
+            if mid != v:
+                store["audits"].setdefault(name, []).append(
+                    {"kind": "delta", "from": mid, "to": v, "criteria": crit_list(rng, crits), "notes": notes()})
+        if rng.random() < 0.5:
+            store["audits"].setdefault(name, []).append(
+                {"kind": "full", "version": v, "criteria": crit_list(rng, crits), "notes": notes(),
+                 **({"importable": False} if rng.random() < 0.3 else {})})
+    return case
